@@ -85,6 +85,8 @@ def scenarios(tier: str):
         if not bh:
             out.append({**base, "entry": "cli", "mode": "changes", "base_hash": bh, "old": "crlf_old", "noop_change": True})
     out.append({**base, "entry": "tool", "mode": "changes", "old": "crlf_old", "noop_change": True})
+    for entry in ("tool", "atomic", "cli"):
+        out.append({**base, "entry": entry, "mode": "new", "dir_target": True})
     # permission bits x umask, fault-free run only (an existing file keeps its bits whatever the process umask is)
     for entry in ("tool", "atomic", "cli"):
         for mode in (("overwrite", "changes") if entry != "atomic" else ("overwrite",)):
@@ -108,6 +110,9 @@ def setup(sc, root):
     d = os.path.join(root, "sub") if sc["parent_missing"] else root
     target = os.path.join(d, "t.oct.md")
     old = None
+    if sc.get("dir_target"):
+        os.makedirs(target)
+        return target, None
     if sc["mode"] != "new":
         old = old_text(sc).encode("utf-8")
         with open(target, "wb") as fh:
@@ -167,7 +172,15 @@ def child(sc, root, plan, result_path):
     at = list(plan.get("at", []))
     code = dict(FAULTS).get(plan.get("fault", ""), None)
 
+    then = plan.get("then")
+
     def hook(idx, name, info):
+        if then and idx == then["at"]:
+            # second fault of a "failed install, then ..." plan: the first (an errno at the rename) has been delivered
+            if then.get("kill"):
+                os._exit(137)
+            c2 = dict(FAULTS)[then["fault"]]
+            raise OSError(c2, os.strerror(c2) + " (injected, second)")
         if idx in at:
             if plan.get("kill"):
                 os._exit(137)
@@ -218,7 +231,7 @@ def run_one(sc, base_dir, plan):
     d = os.path.join(root, "sub") if sc["parent_missing"] else root
     target = os.path.join(d, "t.oct.md")
     state = {"target": None, "mode": None, "siblings": sorted(os.listdir(d)) if os.path.isdir(d) else None}
-    if os.path.lexists(target):
+    if os.path.lexists(target) and not os.path.isdir(target):
         with open(target, "rb") as fh:
             state["target"] = fh.read()
         state["mode"] = os.stat(target).st_mode & 0o777
@@ -227,12 +240,28 @@ def run_one(sc, base_dir, plan):
 
 def label_of(sc):
     return (f"{sc['entry']}/{sc['mode']}/bh{int(sc['base_hash'])}/pm{int(sc['parent_missing'])}/{oct(sc['fmode'])}/{sc['size']}" + ("/lenient-repair" if sc.get("repair") else "")
-            + (f"/old={sc['old']}" if sc.get("old") else "") + ("/noop-change" if sc.get("noop_change") else "") + (f"/umask={oct(sc['umask'])}" if "umask" in sc else ""))
+            + (f"/old={sc['old']}" if sc.get("old") else "") + ("/noop-change" if sc.get("noop_change") else "") + (f"/umask={oct(sc['umask'])}" if "umask" in sc else "") + ("/target-is-a-directory" if sc.get("dir_target") else ""))
 
 
 def check_scenario(sc, base_dir, st: Stats, pairs: bool, only=None):
     """Enumerate all faults of one scenario. `only` = (plan) replays a single run."""
     fails = []
+    if sc.get("dir_target"):
+        # the target path names an existing directory: nothing can be installed there, so the call must say so and leave
+        # the directory as it was (in particular no staging file inside or beside it)
+        code, base, _ = run_one(sc, base_dir, {})
+        root = os.path.join(base_dir, "sb")
+        tgt = os.path.join(root, "t.oct.md")
+        st.evaluations += 1
+        st.nontrivial_exact += 1
+        st.labels["target_is_a_directory"] += 1
+        res = (base or {}).get("returned") or {"status": "error"}
+        left = sorted(os.listdir(root)) + (sorted(os.listdir(tgt)) if os.path.isdir(tgt) else ["<target no longer a directory>"])
+        if res.get("status") == "success":
+            fails.append((f"C16:unlisted:success-on-directory-target:{sc['entry']}", f"{label_of(sc)}: the target is a directory but the call reports success; sandbox now {left}", {}))
+        elif left != ["t.oct.md"]:
+            fails.append((f"C16:unlisted:error-leaves-temp-file:{sc['entry']}", f"{label_of(sc)}: the target is a directory; the call failed and left {left}", {}))
+        return fails
     code, base, after = run_one(sc, base_dir, {})
     if code != 0 or base is None or "returned" not in base or base["returned"].get("status") != "success":
         fails.append(("C16:unlisted:fault-free-run-failed", f"{label_of(sc)}: fault-free run: exit={code} outcome={str(base)[:400]}", {}))
@@ -273,6 +302,13 @@ def check_scenario(sc, base_dir, st: Stats, pairs: bool, only=None):
             if i < j:
                 for fname in ("ENOSPC", "EIO"):
                     plans.append({"at": [i, j], "fault": fname})
+    # a failed install step followed by a second fault: whatever the code does after os.replace/os.rename refused (clean-up,
+    # retry, fall back to copying) is subject to the same rule, so every boundary that follows gets a kill and an ENOSPC
+    if repl < len(trace):
+        for fname in ("EIO", "EACCES"):
+            for off in range(1, 13):
+                plans.append({"at": [repl], "fault": fname, "then": {"at": repl + off, "kill": True}})
+                plans.append({"at": [repl], "fault": fname, "then": {"at": repl + off, "fault": "ENOSPC"}})
     if only is not None:
         plans = [only]
     for plan in plans:
@@ -281,11 +317,13 @@ def check_scenario(sc, base_dir, st: Stats, pairs: bool, only=None):
         nontrivial = first_mut <= i <= repl
         st.evaluations += 1
         kind = "kill" if plan.get("kill") else "torn" if plan.get("torn") else "short" if plan.get("short") else plan["fault"]
+        if plan.get("then"):
+            kind += "+then-" + ("kill" if plan["then"].get("kill") else plan["then"]["fault"])
         st.labels["fault_" + kind] += 1
         if nontrivial:
             st.nontrivial_exact += 1
             st.labels["nontrivial"] += 1
-        where = f"{label_of(sc)} boundary {plan['at']} {[trace[k] for k in plan['at'] if k < len(trace)]} fault={kind}"
+        where = f"{label_of(sc)} boundary {plan['at']} {[trace[k] for k in plan['at'] if k < len(trace)]} fault={kind}" + (f" second at boundary {plan['then']['at']}" if plan.get("then") else "")
         tgt = state["target"]
         if code == 137:
             if tgt not in (old_bytes, new_bytes):
@@ -325,7 +363,7 @@ def check_scenario(sc, base_dir, st: Stats, pairs: bool, only=None):
                     any(n in ("stat", "unlink", "lstat") and ".tmp" in info for n, info in (out["trace"][len(trace) - 1:] if False else []))
                 # the clean-up itself (os.path.exists(temp) / os.unlink(temp)) may be what the fault hit: detect by the
                 # faulted boundary in THIS run's trace
-                hit = [out["trace"][k] for k in plan["at"] if k < len(out["trace"])]
+                hit = [out["trace"][k] for k in plan["at"] + ([plan["then"]["at"]] if plan.get("then") else []) if k < len(out["trace"])]
                 cleanup_fault = cleanup_fault or any(n in ("stat", "unlink", "lstat") and ".tmp" in info for n, info in hit)
                 if cleanup_fault:
                     st.labels["temp_left_because_cleanup_itself_faulted"] += 1
